@@ -330,6 +330,9 @@ func init() {
 			ver := r.Intn(2)
 			phone := randPhone(r, ver)
 			serial := r.Intn(65536)
+			if r.Intn(4) == 0 {
+				serial = 65528 + r.Intn(7) // the terminal's serial wraps inside the session (inside a transfer)
+			}
 			next := func() int { serial = (serial + 1) % 65536; return serial }
 			// build the frame sequence: 1-3 transfers over distinct ids + plain messages
 			var frames [][]byte
@@ -369,7 +372,13 @@ func init() {
 				if len(rest) > 0 && r.Intn(3) == 0 {
 					rest = append(rest, rest[r.Intn(len(rest))])
 				}
-				queue = append(queue, append([]pk{ps[0]}, rest...))
+				tq := append([]pk{ps[0]}, rest...)
+				if total >= 2 && total <= 20 && r.Intn(5) == 0 {
+					// a straggler: a packet of this transfer once more after its last packet (the transfer is complete by then; what
+					// comes late belongs to no transfer and disturbs no other)
+					tq = append(tq, ps[1+r.Intn(total-1)])
+				}
+				queue = append(queue, tq)
 			}
 			// interleave
 			for len(queue) > 0 {
@@ -573,6 +582,25 @@ func init() {
 				}
 				out.put(map[string]any{"total": total, "variant": variant, "panic": pn, "alive": alive})
 			}
+		}
+		// the largest transfer the header can announce, carried through to its end: 65535 one-byte packages
+		{
+			e := service.VerifNewExtractor()
+			pn, got := "", -1
+			for no := 1; no <= 65535 && pn == ""; no++ {
+				body := []byte{byte(no)}
+				if no == 1 {
+					body = append(body, make([]byte, 35)...)
+				}
+				st := feedX(e, partFrame(r, 0x0801, 0, phone, no%65536, 65535, no, body))
+				pn = st.Panic
+				for _, o := range st.Out {
+					if o.Kind == "complete" {
+						got = len(o.Body)
+					}
+				}
+			}
+			out.put(map[string]any{"total": 65535, "variant": 9, "panic": pn, "alive": pn == "" && got == 65535+35, "complete_len": got})
 		}
 	}
 }
